@@ -10,7 +10,7 @@ N = {"quick": 4000, "thorough": 100000}
 
 KNOWN = [  # (key, first 32 bits of MD5(utf-8)) — fixed vectors, computed once from RFC 1321 semantics
     ("", 0xd41d8cd9), ("a", 0x0cc175b9), ("abc", 0x90015098), ("message digest", 0xf96b697d),
-    ("abcdefghijklmnopqrstuvwxyz", 0xc3fcd3d7), ("josé", 442407719),
+    ("abcdefghijklmnopqrstuvwxyz", 0xc3fcd3d7), ("josé", 442407719), ("user_4928520601", 0xffffffff),
 ]
 
 
@@ -59,7 +59,8 @@ def run_evaluators(ctx, n):
     rng = ctx.rng
     cases = []
     for _ in range(n):
-        opts = gen.GenOpts(max_depth=rng.choice([0, 0, 1]), p_salt=0.7, ident_pool=gen.PLAIN_IDENTS, max_groups=6,
+        opts = gen.GenOpts(max_depth=rng.choice([0, 0, 1]), p_salt=0.7, max_groups=6,
+                           ident_pool=gen.PLAIN_IDENTS + ["X", "USER", "Country", "_x", "_id", "Zone", "ID", "B", "Uid", "uId", "a_B", "A_b"],
                            p_shared=0.3, max_nodes=4)
         prog = gen.gen_program(rng, opts)
         text = gen.render(prog, rng, "plain")
